@@ -96,11 +96,11 @@ type vhScript struct {
 	deadlineViolation bool
 	lastWriteDeadline time.Duration
 
-	lockProbe   func() bool // returns true if the client's lock is NOT held (violation)
-	lockMissing bool
+	lockProbe     func() bool // returns true if the client's lock is NOT held (violation)
+	lockMissing   bool
 	opsBeforeConn int
-	extraReads  int
-	oversizeN   int
+	extraReads    int
+	oversizeN     int
 }
 
 func (s *vhScript) probe() {
@@ -269,14 +269,14 @@ func (h *vhHooks) BeforeParse(received []byte) {
 
 // kinds: 0..9 = FC 1,2,3,4,5,6,15,16,17,23. mode: 0 TCP client, 1 RTU-over-network client, 2 serial client.
 type vhExchange struct {
-	req      packet.Request
-	reply    []byte // the well-formed reply to req
-	isExc    bool
-	excCode  uint8
-	fc       uint8
-	unit     uint8
-	tcp      bool
-	specLen  int // the true length of the reply
+	req     packet.Request
+	reply   []byte // the well-formed reply to req
+	isExc   bool
+	excCode uint8
+	fc      uint8
+	unit    uint8
+	tcp     bool
+	specLen int // the true length of the reply
 }
 
 func vhBE(v uint16) (byte, byte) { return byte(v >> 8), byte(v) }
